@@ -2,12 +2,16 @@
 
    mdvgm tok*     tok = T<id>:<type>.<param>.<on>.<off>,...   track <id>
                         @<id>=<w>,<w>,...                     tag "@<id>" with these words
+                        W<name>=<hex>                         a file `<name>` with these bytes (PCM
+                                                              instruments: `@<id>=pcm,<name>[,rate=n][,offset=n]`)
+                        #<key>=<hex|->                        song tag `#<key>` (GD3 text; C08)
    answer: `vgm len=<n> fnv=<hash> hex=<bytes>` | `exc:<class>` | `unsupported`
-   The export runs with `#vgmdate 2000-01-01` and `#comment c07`. -/
+   The export runs with `#vgmdate 2000-01-01` and `#comment c07` unless the request sets them. -/
 import Driver.Common
 import Driver.Song
 import Ctrmml.Model.MdDriver
 import Ctrmml.Model.MdsData
+import Ctrmml.Model.Wave
 import Ctrmml.Spec.Schedule
 namespace Driver.MdDrvD
 open Ctrmml Ctrmml.MdDriver Driver
@@ -19,7 +23,8 @@ def parseTags (toks : List String) : Option TagList :=
   toks.foldlM (fun (acc : TagList) t =>
     if t.startsWith "@" then
       match t.splitOn "=" with
-      | [key, v] =>
+      | key :: v0 :: vs =>
+        let v := "=".intercalate (v0 :: vs)
         let ws := v.splitOn ","
         if acc.any (·.1 == key) then some (acc.map fun kv => if kv.1 == key then (kv.1, kv.2 ++ ws) else kv)
         else some (acc ++ [(key, ws)])
@@ -42,11 +47,48 @@ def fixedTags : Vgm.Tags :=
 structure Req where
   song : Song
   tags : TagList
+  /-- `W<name>=<hex>` -/
+  files : List (String × Bytes) := []
+  /-- `#<key>=<hex>` -/
+  songTags : TagMap := []
 
 def parseReq (arg : String) : Option Req := do
   let (song, rest) ← parseSong (words arg)
-  let tags ← parseTags rest
-  pure { song := { tracks := sortTracks song.tracks }, tags := tags }
+  let ws := rest.filter (·.startsWith "W")
+  let hs := rest.filter (·.startsWith "#")
+  let tags ← parseTags (rest.filter fun t => !(t.startsWith "W") && !(t.startsWith "#"))
+  let files ← ws.mapM fun t => match (t.drop 1).toString.splitOn "=" with
+    | [n, h] => do pure (n, ← bytesOfHex h)
+    | _ => none
+  let st ← hs.mapM fun t => match t.splitOn "=" with
+    | [k, h] => do pure (k, [← bytesOfHex h])
+    | _ => none
+  pure { song := { tracks := sortTracks song.tracks }, tags := tags, files := files, songTags := st }
+
+def isPcmTag (kv : String × List String) : Bool :=
+  match kv.2 with
+  | ty :: _ => ty.toLower == "pcm" && ((kv.1.drop 1).toString.toNat?).isSome
+  | [] => false
+
+/-- `add_ins_pcm` for every `@<id> pcm …` tag in tag order, on the fresh `wave_rom` -/
+def buildBank (files : List (String × Bytes)) (tags : TagList) :
+    Except Wave.Err (Wave.Bank × List (Nat × Nat) × List (Nat × Ins)) :=
+  tags.foldlM (fun (acc : Wave.Bank × List (Nat × Nat) × List (Nat × Ins)) kv =>
+    if isPcmTag kv then
+      let id := ((kv.1.drop 1).toString.toNat?).getD 0 % 65536
+      let args := kv.2.drop 1
+      match Wave.addSampleTag acc.1 (match args with | n :: _ => files.lookup n | [] => none) args with
+      | .error e => .error e
+      | .ok (b, idx) =>
+        let hdr := ((b.samples[idx]?).map (·.toBytes)).getD []
+        .ok (b, (id, idx) :: acc.2.1.filter (·.1 ≠ id),
+             (id, { type := Tables.mdsdrv_INS_PCM, data := hdr.map (·.toNat), transpose := 0 }) :: acc.2.2.filter (·.1 ≠ id))
+    else .ok acc) (Wave.Bank.new Tables.mds_dataWaveRom 0, [], [])
+
+/-- the tags the export writes: the request's `#…` tags over the two fixed ones -/
+def reqTags (r : Req) : Vgm.Tags :=
+  let m : TagMap := r.songTags ++ [("#vgmdate", ["2000-01-01".toUTF8.toList]), ("#comment", ["c07".toUTF8.toList])]
+  finalTags m { clock := "0000-00-00 00:00:00".toUTF8.toList, build := "ctrmml (built ??? ?? ???? ??:??:??)".toUTF8.toList }
 
 def errName : DErr → String
   | .input => "exc:InputError"
@@ -60,14 +102,20 @@ def model (arg : String) : String :=
   match parseReq arg with
   | none => "bad-request"
   | some r =>
-    let (st, e) := MdsData.readSong MdsData.Arith.float false r.tags
+    let (st, e) := MdsData.readSong MdsData.Arith.float false (r.tags.filter (!isPcmTag ·))
     match e with
     | some (.input _) => "exc:InputError"
     | some .unsupported => "unsupported"
     | none =>
-      match exportVgm (dataOf st) r.song fixedTags with
-      | .error e => errName e
-      | .ok b => s!"vgm len={b.length} fnv={hex64 (fnv64 b)} hex={hexOfBytes b}"
+      match buildBank r.files r.tags with
+      | .error .oob | .error .hang | .error .divZero => "UB:wave"
+      | .error _ => "exc:InputError"
+      | .ok (bank, wm, pins) =>
+        let d0 := dataOf st
+        let d : Data := { d0 with ins := pins ++ d0.ins, bank := bank, waveMap := wm }
+        match exportVgm d r.song (reqTags r) with
+        | .error e => errName e
+        | .ok b => s!"vgm len={b.length} fnv={hex64 (fnv64 b)} hex={hexOfBytes b}"
 
 /-! ### the spec oracle on the implementation's answer -/
 open Ctrmml.Schedule in
@@ -98,7 +146,11 @@ def judge (arg impl : String) : String :=
   match parseReq arg with
   | none => "skip"
   | some r =>
-    if impl.startsWith "exc:" then
+    let tagsValid := (reqTags r).toList.all fun b => VgmSpec.validUtf8 (Vgm.cstr b)
+    if impl.startsWith "exc:" ∧ !tagsValid then
+      -- a song tag that is not valid UTF-8 is an input error of the VGM export (C08)
+      if impl == "exc:InputError" then "ok" else "fail invalid UTF-8 tag not reported as InputError: " ++ impl
+    else if impl.startsWith "exc:" then
       if plainValid r.song ∧ r.tags.all (fun kv => match kv.2 with | "fm" :: rest => rest.length ≥ 42 | "psg" :: _ :: _ => true | _ => false)
       then "fail export-failed a valid plain-subset song does not export: " ++ impl else "skip"
     else
